@@ -7,7 +7,9 @@ import (
 	"github.com/syndtr/goleveldb/leveldb"
 	"github.com/syndtr/goleveldb/leveldb/iterator"
 	"github.com/syndtr/goleveldb/leveldb/opt"
+	"github.com/syndtr/goleveldb/leveldb/storage"
 	"github.com/syndtr/goleveldb/leveldb/util"
+	"verif/harness/simdisk"
 	"verif/simrt"
 )
 
@@ -120,17 +122,7 @@ func (r *runner) lifeROOpen() {
 		r.doGet(&Op{K: "get", Key: k}, nil)
 	}
 	// writes are rejected
-	if err := r.db.Put([]byte("ro-probe"), []byte("x"), nil); err != leveldb.ErrReadOnly {
-		r.viol("readonly", "readonly:write-accepted", fmt.Sprintf("Put on a read-only DB returned %v, want ErrReadOnly", err))
-	}
-	b := new(leveldb.Batch)
-	b.Put([]byte("ro-probe"), []byte("x"))
-	if err := r.db.Write(b, nil); err != leveldb.ErrReadOnly {
-		r.viol("readonly", "readonly:write-accepted", fmt.Sprintf("Write on a read-only DB returned %v, want ErrReadOnly", err))
-	}
-	if _, err := r.db.OpenTransaction(); err != leveldb.ErrReadOnly {
-		r.viol("readonly", "readonly:tx-accepted", fmt.Sprintf("OpenTransaction on a read-only DB returned %v, want ErrReadOnly", err))
-	}
+	r.roProbes()
 	simrt.Progress()
 	simrt.Quiesce()
 	simrt.IdleFor(31e9)
@@ -141,22 +133,105 @@ func (r *runner) lifeROOpen() {
 	r.disk.NextEpoch(0, 0, false)
 	simrt.SetEpoch(r.disk.Epoch + 1000)
 	r.probe("life-ro-open")
+	r.lifeOpenGuards()
+}
+
+// Open refuses without creating or changing anything: read-only or
+// ErrorIfMissing on a storage that holds no DB, ErrorIfExist on one that does.
+func (r *runner) lifeOpenGuards() {
+	for i, name := range []string{"read-only", "ErrorIfMissing"} {
+		d2 := simdisk.New()
+		o := r.knobs.Options()
+		o.ReadOnly, o.ErrorIfMissing = i == 0, i == 1
+		db2, err := leveldb.Open(d2.Handle(), o)
+		simrt.Progress()
+		if err == nil {
+			db2.Close()
+			r.viol("readonly", "readonly:empty-open-succeeded", fmt.Sprintf("%s Open of a storage that holds no DB succeeded", name))
+			return
+		}
+		if n := len(d2.ListFiles(storage.TypeAll)); n != 0 || d2.Meta() != (storage.FileDesc{}) {
+			r.viol("readonly", "readonly:empty-open-created", fmt.Sprintf("the refused %s Open of an empty storage left %d files, meta %v", name, n, d2.Meta()))
+			return
+		}
+	}
+	me := simrt.Cur().ID
+	before := r.mutBy[me]
+	o := r.knobs.Options()
+	o.ErrorIfExist = true
+	db2, err := leveldb.Open(r.disk.Handle(), o)
+	simrt.Progress()
+	if err == nil {
+		db2.Close()
+		r.viol("lock", "lock:error-if-exist-ignored", "Open with ErrorIfExist succeeded on an existing DB")
+		return
+	}
+	if r.mutBy[me] != before {
+		r.viol("lock", "lock:refused-open-mutated", "the Open refused by ErrorIfExist modified the storage")
+		return
+	}
+	if !r.ensureOpen() && len(r.out.Viol) == 0 {
+		r.viol("lock", "lock:not-released", "Open after a refused Open failed")
+	}
+	r.probe("life-open-guards")
+}
+
+// roProbes: after a successful SetReadOnly every write entry point, with
+// every combination of write options, answers ErrReadOnly (and answers at all:
+// a call that blocks is reported by the hang detector).
+func (r *runner) roProbes() {
+	want := func(what string, err error) {
+		if err == leveldb.ErrReadOnly || (r.faulty && err != nil) {
+			return
+		}
+		r.viol("readonly", "readonly:write-accepted", fmt.Sprintf("%s after SetReadOnly returned %v, want ErrReadOnly", what, err))
+	}
+	k, v := []byte("ro-probe"), []byte("x")
+	for i := 0; i < 4; i++ {
+		wo := &opt.WriteOptions{Sync: i&1 != 0, NoWriteMerge: i&2 != 0}
+		name := fmt.Sprintf("(sync=%v,nomerge=%v)", wo.Sync, wo.NoWriteMerge)
+		simrt.SetOp("Put" + name)
+		want("Put"+name, r.db.Put(k, v, wo))
+		simrt.SetOp("Delete" + name)
+		want("Delete"+name, r.db.Delete(k, wo))
+		b := new(leveldb.Batch)
+		b.Put(k, v)
+		simrt.SetOp("Write" + name)
+		want("Write"+name, r.db.Write(b, wo))
+		big := new(leveldb.Batch)
+		big.Put(k, make([]byte, 2*r.knobs.Options().GetWriteBuffer()))
+		simrt.SetOp("Write-large" + name)
+		want("Write-large"+name, r.db.Write(big, wo))
+		simrt.Progress()
+	}
+	want("Put(nil)", r.db.Put(k, v, nil))
+	want("Delete(nil)", r.db.Delete(k, nil))
+	simrt.SetOp("OpenTransaction")
+	tr, err := r.db.OpenTransaction()
+	if err == nil {
+		tr.Discard()
+	}
+	want("OpenTransaction", err)
+	simrt.SetOp("CompactRange")
+	want("CompactRange", r.db.CompactRange(util.Range{}))
+	simrt.SetOp("")
+	simrt.Progress()
 }
 
 // SetReadOnly: writes rejected, reads served, nothing mutated once
 // in-flight background work has drained.
 func (r *runner) lifeSetRO() {
-	if err := r.db.SetReadOnly(); err != nil {
-		r.viol("readonly", "readonly:setreadonly-failed", fmt.Sprintf("SetReadOnly returned %v", err))
+	simrt.SetOp("SetReadOnly")
+	err := r.db.SetReadOnly()
+	simrt.SetOp("")
+	if err != nil {
+		if !r.faulty {
+			r.viol("readonly", "readonly:setreadonly-failed", fmt.Sprintf("SetReadOnly returned %v", err))
+		}
 		return
 	}
 	simrt.Progress()
-	if err := r.db.Put([]byte("ro-probe"), []byte("x"), nil); err != leveldb.ErrReadOnly {
-		r.viol("readonly", "readonly:write-accepted", fmt.Sprintf("Put after SetReadOnly returned %v, want ErrReadOnly", err))
-	}
-	if err := r.db.Delete([]byte("ro-probe"), nil); err != leveldb.ErrReadOnly {
-		r.viol("readonly", "readonly:write-accepted", fmt.Sprintf("Delete after SetReadOnly returned %v, want ErrReadOnly", err))
-	}
+	r.roProbes()
 	simrt.Progress()
 	// drain in-flight background work, incl. the reference cache
 	simrt.Quiesce()
@@ -372,6 +447,13 @@ func genLife(seed uint64, g *gen, thorough bool) *Case {
 	p.wWrite, p.wGet, p.wIter, p.wTx, p.wCompact, p.wSnap = 70, 8, 2, 4, 4, 2
 	c.Clients = [][]Op{g.program(p)}
 	c.Life = []string{"lock", "ro-open", "setro", "closed", "race"}[r.intn(5)]
+	if c.Life == "setro" && r.p(0.4) {
+		// SetReadOnly while a flush or compaction is failing and retrying
+		for i := r.rng(1, 2); i > 0; i-- {
+			c.Faults = append(c.Faults, &simdisk.Fault{Kind: "err", Op: []string{simdisk.OpWrite, simdisk.OpSync, simdisk.OpCreate}[r.intn(3)], FT: int(storage.TypeTable), Nth: r.rng(1, 8), Count: r.rng(1, 8), Epoch: -1})
+		}
+		c.TableFaultsOnly = true
+	}
 	if c.Life == "race" {
 		if c.Sched.Strategy == 0 && c.Sched.YieldP < 0.002 {
 			c.Sched.YieldP = 0.02
